@@ -24,12 +24,16 @@ type Config struct {
 	Initial int64  // -1: option not passed
 	Backend string // memdb | prefix | leveldb | prefixleveldb
 	Wrap    bool   // interpose the recording / counting / fault-injecting wrapper
+	IvLate  bool   // the initial version is set by SetInitialVersion after the first writes and a WorkingHash, not by the option
 }
 
 func (c Config) String() string {
 	w := ""
 	if c.Wrap {
 		w = ",wrap=true"
+	}
+	if c.IvLate {
+		w += ",ivlate=true"
 	}
 	return fmt.Sprintf("cache=%d,fast=%v,flush=%d,sync=%v,backend=%s%s", c.Cache, c.Fast, c.Flush, c.Sync, c.Backend, w)
 }
@@ -54,6 +58,8 @@ func parseConfig(s string, initial int64) Config {
 			c.Backend = kv[1]
 		case "wrap":
 			c.Wrap = kv[1] == "true"
+		case "ivlate":
+			c.IvLate = kv[1] == "true"
 		}
 	}
 	return c
@@ -70,6 +76,7 @@ type Sys struct {
 	fastNow bool // fast setting of the current open (may be overridden per reopen)
 	hooks   *hooks
 	pending [][]string // successful uncommitted writes since the last clean point
+	ivDone  bool       // IvLate: SetInitialVersion has been called
 }
 
 func newSys(cfg Config) (*Sys, error) {
@@ -104,7 +111,7 @@ func newSys(cfg Config) (*Sys, error) {
 
 func (s *Sys) options() []iavl.Option {
 	opts := []iavl.Option{iavl.FlushThresholdOption(s.cfg.Flush), iavl.SyncOption(s.cfg.Sync)}
-	if s.cfg.Initial >= 0 {
+	if s.cfg.Initial >= 0 && (!s.cfg.IvLate || s.ivDone) {
 		opts = append(opts, iavl.InitialVersionOption(uint64(s.cfg.Initial)))
 	}
 	return opts
@@ -361,6 +368,13 @@ func (s *Sys) execRead(imm *iavl.ImmutableTree, toks []string) string {
 
 // Exec runs one m1 operation and keeps track of the uncommitted writes.
 func (s *Sys) Exec(toks []string) string {
+	if s.cfg.IvLate && !s.ivDone && s.cfg.Initial >= 0 && toks[0] != "set" && toks[0] != "rm" {
+		// the writes so far were made without an initial version; a working-hash query, then the
+		// initial version is set: from here on the tree is the model's tree with that initial version
+		_ = s.tree.WorkingHash()
+		s.tree.SetInitialVersion(uint64(s.cfg.Initial))
+		s.ivDone = true
+	}
 	if toks[0] == "crash" {
 		return s.execCrash(toks[1:])
 	}
